@@ -86,6 +86,12 @@ def o_fcr(unit, t):
 
 
 def o_number(unit, b):
+    if unit == "week":
+        # d3's Sunday-based week of the year: floor((day of year + weekday of 1 January) / 7) - 1, day of year from 0,
+        # Sunday = 0 (the statement says "unit number"; for weeks that is d3.time.sundayOfYear as ported)
+        jan1 = datetime(b.year, 1, 1)
+        doy = (datetime(b.year, b.month, b.day) - jan1).days
+        return (doy + jan1.isoweekday() % 7) // 7 - 1
     return {"second": b.second, "minute": b.minute, "hour": b.hour, "day": b.day - 1, "month": b.month - 1,
             "year": b.year}[unit]
 
@@ -217,7 +223,7 @@ SCOPE = ("units second/minute/hour/day/week(Sunday)/month/year of d3_time, naive
          "of every month of every year (quick); (b) the round-tie instants (+-1 ms) of every month and year, every week of selected years; "
          "(c) second/minute/hour at every hour of selected years at 3-6 offsets incl. the second/minute/hour ties; (d) offset(boundary, k) for every k in 0..400 "
          "from ~45 anchor boundaries per unit, day offsets 1,2,3,7,31 from every enumerated day; (e) range(start, stop, step) for steps "
-         "1..12 (week: step 1) over anchors x lengths incl. empty, boundary-exclusive stops and every month end (27th..4th) of the "
+         "1..12 over anchors x lengths incl. empty, boundary-exclusive stops and every month end (27th..4th) of the "
          "enumerated years; then seeded random instants / offsets / ranges until the budget is spent")
 
 QUICK_YEARS = [1900, 1969, 1970, 2000, 2024, 2100, 2200]
@@ -361,6 +367,7 @@ def enum_month_end_ranges(run, month_years):
             for step in range(1, 13):
                 check_range(run, "day", start, stop, step)
             check_range(run, "week", start, stop, 1)
+            check_range(run, "week", datetime(y, m, 1) - timedelta(days=20), stop + timedelta(days=45), 2 + (y + m) % 11)
             check_range(run, "hour", nm - timedelta(hours=30), nm + timedelta(hours=7), 1 + (y * 12 + m) % 12)
         if y % 16 == 0 and run.left() < run.budget * 0.15:
             run.note("month-end range enumeration cut by the time budget at year %d" % y)
@@ -373,7 +380,7 @@ def enum_ranges(run, anchors, lengths):
     done = 0
     for a in anchors:
         for u in UNITS:
-            steps = [1] if u == "week" else list(range(1, 13))
+            steps = list(range(1, 13))
             f = o_floor(u, a)
             for start in (f, f + ONE_MS, f - ONE_MS if f > T_MIN else f, a):
                 stops = {start, start + ONE_MS}
@@ -469,7 +476,7 @@ def explore(run):
                 if rng.random() < 0.3:
                     stop = o_ceil(u, stop) + rng.choice([0, 0, 1]) * ONE_MS
                 stop = min(stop, R_MAX)
-                check_range(run, u, t, stop, 1 if u == "week" else rng.randint(1, 12))
+                check_range(run, u, t, stop, rng.randint(1, 12))
 
 
 def replay(run, inp):
